@@ -1,2 +1,3 @@
 import Gozod.Drv.Loop
-def main : IO Unit := Gozod.Drv.runTokens (fun _ => "bad-op")
+import Gozod.Drv.C18
+def main : IO Unit := Gozod.Drv.runTokens Gozod.Drv.C18.handle
